@@ -605,3 +605,25 @@ pub fn escape_range(content: &str) -> Option<(usize, usize)> {
 pub fn parse_signature_probe(src: &str) -> String {
     parse_probe_impl::probe_signature(src)
 }
+
+/// Every function registered in a runtime: its qualified name as a script
+/// writes it (`Type.method`, `module.function`, `function`) and the number of
+/// parameters of its signature (0 = a static function without parameters: it
+/// has no receiver). The C06 oracle calls each of them with receiver syntax
+/// on every kind of receiver.
+pub fn runtime_functions<Ctx: crate::runtime::OptCtx>(
+    rt: &crate::Runtime<Ctx>,
+) -> Vec<(String, usize)> {
+    use crate::typechecker::scoped_display::TypeDisplay;
+    let info = &rt.rt.type_checker.type_info;
+    rt.rt
+        .functions()
+        .iter()
+        .map(|f| {
+            (
+                f.name.display(info).to_string(),
+                f.func.parameter_types().len(),
+            )
+        })
+        .collect()
+}
